@@ -19,6 +19,7 @@ import (
 
 type Cfg struct {
 	B bool   `flag:"b,false,a boolean flag"`
+	T bool   `flag:"t,true,a boolean flag that is on by default"`
 	S string `flag:"s,d,a string flag"`
 	I int    `flag:"i,3,an int flag"`
 }
@@ -28,6 +29,7 @@ type rec struct {
 	Err   bool    `json:"err"`
 	Panic bool    `json:"panic"`
 	B     bool    `json:"b"`
+	T     bool    `json:"t"`
 	S     []int   `json:"s"`
 	I     int     `json:"i"`
 	Help  bool    `json:"help"`
@@ -58,7 +60,7 @@ func run(args []string) (r rec) {
 		r.Msg = err.Error()
 		return r
 	}
-	r.B, r.S, r.Help = c.B, vio.Ints(c.S), fs.ShowUsage()
+	r.B, r.T, r.S, r.Help = c.B, c.T, vio.Ints(c.S), fs.ShowUsage()
 	if c.I > 1<<30 || c.I < -(1<<30) {
 		r.I = 1 << 30 // outside the model's integer range; the model marks such texts "unknown"
 	} else {
@@ -109,7 +111,7 @@ func main() {
 	}
 	gen(nil)
 	rng := rand.New(rand.NewSource(vio.Seed()))
-	pieces := []string{"-", "--", "=", "b", "s", "i", "help", "config", "u", "true", "false", "0", "1", "7", "-5", "x", "v", " ", "\x00", "\xff", "é", "=="}
+	pieces := []string{"-", "--", "=", "b", "t", "s", "i", "help", "config", "u", "true", "false", "0", "1", "7", "-5", "x", "v", " ", "\x00", "\xff", "é", "=="}
 	for k := 0; k < *extra; k++ {
 		n := 1 + rng.Intn(5)
 		v := make([]string, n)
